@@ -224,6 +224,12 @@ X_DIRECTED = [
      [('sel', [1, 0, 3, 2, 0]), ('addmask', []), ('sel', [2, 1, 5, 3, 2]), ('addmask', []), ('inverse', []), ('enumsel', [66]), ('erase', []),
       ('sel', [0, 0, 2, 2, 0]), ('addmask', []), ('eraserow', []), ('erasecol_e', []), ('U', []), ('U', []), ('U', []), ('U', []), ('U', []), ('U', []), ('U', []), ('U', []), ('U', []),
       ('R', []), ('R', []), ('R', []), ('R', []), ('R', []), ('R', []), ('R', []), ('R', []), ('R', [])]),
+    # fixed (C08-rowcol-raw-lines): a record that stores whole `lines` vectors re-imposes another stored shape between redo and undo of a row / column record
+    ((base_doc(6, 4, [(6, 4, 0, 0, 1, 0, [])], 0, 0, 2, 1), 0, 1, 0, 0, [], 0),
+     [('jleft', []), ('delcol', []), ('palmode', [0]), ('U', []), ('U', []), ('U', []), ('R', []), ('R', []), ('R', []), ('U', []), ('U', []), ('U', []), ('R', []), ('R', []), ('R', [])]),
+    ((base_doc(6, 4, [(6, 4, 0, 0, 1, 0, [[A, Bc, A]])], 0, 0, 2, 3), 0, 1, 0, 0, [], 0),
+     [('jleft', []), ('delrow', []), ('ice', [0]), ('insrow', []), ('palmode', [0]), ('inscol', []), ('U', []), ('U', []), ('U', []), ('U', []), ('U', []), ('U', []),
+      ('R', []), ('R', []), ('R', []), ('R', []), ('R', []), ('R', []), ('U', []), ('U', []), ('U', []), ('U', []), ('U', []), ('U', [])]),
     # rows and columns with HIDDEN content: the layer stores 4 rows of 6 cells but is 4 x 3, then 3 x 2
     ((base_doc(6, 4, [(4, 3, 0, 0, 1, 0, [[A, Bc, A, Bc, A, Bc], [Bc, A, A, A, A, A], [A, A, Bc, Bc, A, A], [Bc, Bc, Bc, A, A, A]])], 0, 0, 1, 1), 0, 1, 0, 0, [], 0),
      [('lsize', [0, 3, 2]), ('inscol', []), ('delcol', []), ('insrow', []), ('delrow', []), ('caret', [4, 3]), ('inscol', []), ('delrow', []),
